@@ -31,6 +31,9 @@ type state struct {
 
 var st state
 
+// distinct RFC 1071 outcomes reached per protocol/ip version over the whole run (evidence histogram)
+var seenOutcome = map[string]bool{}
+
 func reset() { st = state{} }
 
 // ---------------------------------------------------------------- parsing
@@ -530,6 +533,11 @@ func emitReply(proto, ipver string, src, dst, out []byte, err error, hasCk bool)
 			raw := ref
 			if proto == "udp" && ref == 0 {
 				ref = 0xffff
+			}
+			key := proto + ipver + strconv.Itoa(int(raw))
+			if !seenOutcome[key] {
+				seenOutcome[key] = true
+				lib.Stat("emit:" + proto + ":v" + ipver + ":distinct-outcomes")
 			}
 			switch {
 			case raw == 0:
